@@ -190,8 +190,15 @@ def run(ctx):
     # (each still with per-frame varying cells), plus mixed ones
     ortho = [c for c in recs if not (c["cell"][1][0] or c["cell"][2][0] or c["cell"][2][1])]
     tric = [c for c in recs if c not in ortho] if len(recs) < 5000 else [c for c in recs if (c["cell"][1][0] or c["cell"][2][0] or c["cell"][2][1])]
+    # ... and the almost rectangular cells (tilt below 0.2 degrees) on their own: whatever tolerance decides "orthorhombic", a skewed
+    # cell is skewed
+    def _near(c):
+        cl = c["cell"]
+        off = max(abs(cl[1][0]), abs(cl[2][0]), abs(cl[2][1]))
+        return 0 < off * 200 <= min(cl[0][0], cl[1][1], cl[2][2])
+    near = [c for c in recs if _near(c)]
     tasks = []
-    for fam in (ortho, tric, recs[:len(recs) // 4]):
+    for fam in (ortho, near, tric, recs[:len(recs) // 4]):
         tasks += [(fam[i:i + B], ctx.seed * 7919 + i, (i // B) % 6 == 0) for i in range(0, len(fam), B)]
     res = pool.run_tasks(_batch, tasks, workers=16, timeout=600, batch=1)
     nfail = 0
@@ -205,7 +212,7 @@ def run(ctx):
             c = tk[0][k]
             ctx.discrepancy(None, "cell=%s r=%s: %s" % (c["cell"], c["r"], p), dict(case=c, problem=p), cls=p[:100])
     nontriv = sum(1 for c in recs if max(abs(x) for x in c["r"]) > max(c["cell"][0][0], c["cell"][1][1], c["cell"][2][2]) // 2)
-    cov = dict(traces_validated_against_impl=sum(len(tk[0]) for tk in tasks), orthorhombic_only_trajectories=len(ortho), cases_beyond_half_a_cell=nontriv, triclinic_cases=sum(1 for c in recs if c["cell"][1][0] or c["cell"][2][0] or c["cell"][2][1]),
+    cov = dict(traces_validated_against_impl=sum(len(tk[0]) for tk in tasks), orthorhombic_only_trajectories=len(ortho), almost_rectangular_cases=len(near), cases_beyond_half_a_cell=nontriv, triclinic_cases=sum(1 for c in recs if c["cell"][1][0] or c["cell"][2][0] or c["cell"][2][1]),
                in_range_cases=sum(1 for c in recs if c["inrange"]), replays_failing=nfail, samples=recs[:3], grid_nm=G,
                explanation="every (cell, r) case enumerated by TLC is a frame of a packed trajectory with per-frame varying cell; compute_distances, compute_displacements "
                            "(opt and numpy paths), compute_distances_core, compute_distances_t, pair-list variants, periodic=False / no cell and find_closest_contact are "
